@@ -162,3 +162,125 @@ def gen_t2(sim, big=False, want_old=None):
 
 
 GENERATORS = {"t2": gen_t2}
+
+
+# --------------------------------------------------------------------------------------
+# Type 1
+# --------------------------------------------------------------------------------------
+from . import t1t
+
+
+class T1Case(TagCase):
+    kind = "t1"
+
+    def __init__(self, layout, old, filler_seed, uid, hr, beyond="zeros"):
+        self.layout = layout
+        self.old = bytes(old)
+        self.uid, self.hr, self.beyond = uid, hr, beyond
+        import random
+        fill = random.Random(filler_seed).randbytes(layout.size)
+        self.image = layout.image(self.old, lambda a: fill[a], uid=uid)
+
+    def silicon(self, image=None):
+        return t1t.T1TSilicon(image if image is not None else self.image, hr=self.hr,
+                              beyond=self.beyond, or_only=self.layout.lock_bytes)
+
+    def world(self, nfc, image=None):
+        sil = self.silicon(image)
+        w = World(nfc, [sil])
+        w.silicon = sil
+        return w
+
+    def true_capacity(self):
+        return self.layout.true_capacity()
+
+    def parse(self, mem):
+        r = t1t.parse_t1t(mem, self.hr[0])
+        if r["status"] == "ok":
+            return ("ok", r["value"])
+        return (r["status"], None)
+
+    def allowed_changes(self):
+        return self.layout.ndef_area()
+
+    def describe(self):
+        lay = self.layout
+        return {"type": "T1T", "size": lay.size, "hr": self.hr.hex(),
+                "prefix": [list(t) for t in lay.prefix_tlvs], "ndef_offset": lay.ndef_offset,
+                "reserved": sorted(lay.reserved - lay.base_reserved)[:40], "old_len": len(self.old),
+                "terminator": lay.terminator}
+
+
+def gen_t1(sim, big=False, want_old=None):
+    kind = sim.wpick("t1.kind", [(3, "static-topaz"), (1, "static-generic"), (3, "dyn-512"),
+                                 (2, "dyn-256"), (1, "dyn-1024")] + ([(1, "dyn-2048")] if big else []))
+    if kind.startswith("static"):
+        size, hr = 120, (b"\x11\x48" if kind == "static-topaz" else b"\x11\x20")
+    else:
+        size = int(kind.split("-")[1])
+        hr = b"\x12\x4C" if size == 512 and not sim.chance("t1.generic512", 0.3) else b"\x12\x30"
+    dynamic = size > 120
+    n_null = sim.weighted("t1.nnull", [5, 2, 2, 1])
+    n_lock = sim.weighted("t1.nlock", [4, 3, 1]) if dynamic else sim.weighted("t1.nlock", [6, 1])
+    n_mem = sim.weighted("t1.nmem", [5, 2, 1]) if dynamic else sim.weighted("t1.nmem", [6, 1])
+    std = dynamic and sim.chance("t1.stdctrl", 0.5)
+    hdr_len = n_null + 5 * (n_lock + n_mem) + (10 if std else 0)
+    ndef_offset = 12 + hdr_len
+    first_free = ndef_offset + 4
+    end = size
+    base_res = set(range(104, 128 if dynamic else 120))
+
+    def place(kind, nbytes):
+        where = sim.wpick(kind + ".where", [(5, "inside"), (2, "after"), (1, "beyond"), (1, "before"),
+                                            (2, "tail")])
+        if where == "inside":
+            a = sim.randint(kind + ".addr", first_free, end - 1)
+        elif where == "tail":
+            a = sim.randint(kind + ".addr", max(first_free, end - 12), end - 1)
+        elif where == "after":
+            a = end
+        elif where == "beyond":
+            a = end + sim.randint(kind + ".addr", 1, 40)
+        else:
+            a = sim.randint(kind + ".addr", 0, 11)
+        if a < first_free and a + nbytes > 12:
+            a = first_free
+        while t2t.encode_ctrl(a, 1) is None:
+            a += 1
+        return a, where
+    tlvs = sim.shuffle("t1.order", ["null"] * n_null + ["lock"] * n_lock + ["mem"] * n_mem)
+    prefix = []
+    if std:
+        prefix += [("lock", 122, 48), ("mem", 120, 2)]
+    for t in tlvs:
+        if t == "null":
+            prefix.append(("null",))
+        elif t == "lock":
+            nbits = sim.wpick("t1.lock.bits", [(3, 8), (2, 16), (2, 12), (1, 1), (1, 40), (1, 3)])
+            a, where = place("t1.lock", (nbits + 7) // 8)
+            prefix.append(("lock", a, nbits))
+            sim.probe("t1.reserved." + where)
+        else:
+            sz = sim.wpick("t1.mem.size", [(3, 1), (2, 2), (2, 4), (1, 7), (1, 8), (1, 16)])
+            a, where = place("t1.mem", sz)
+            prefix.append(("mem", a, sz))
+            sim.probe("t1.reserved." + where)
+    terminator = not sim.chance("t1.noterm", 0.15)
+    lay = t1t.T1TLayout(size, prefix, terminator=terminator)
+    assert lay.header_ok(), "generator produced reserved bytes on TLV headers"
+    cap = lay.true_capacity()
+    if want_old is None:
+        old_len, oc = pick_len(sim, "t1.oldlen", cap)
+    else:
+        old_len, oc = min(want_old, cap), "given"
+    old = sim.bytes("t1.old", old_len, tag=1)
+    uid = sim.bytes("t1.uid", 7, tag=2)
+    beyond = sim.pick("t1.beyond", ["zeros", "mirror", "silent"])
+    case = T1Case(lay, old, sim.choose("t1.fill", 1 << 16), uid, hr, beyond)
+    case.old_class = oc
+    if dynamic and ndef_offset % 8 in (5, 6):
+        sim.probe("t1.lenfield_straddles_block")
+    return case
+
+
+GENERATORS["t1"] = gen_t1
